@@ -31,7 +31,10 @@ SELS = ["", "/", "/d", "/d/", "/gm", "/umn", "/about.txt", "/big.txt", "/page.ht
         "/%zz", "/%2", "/x%0d%0ay", "/x\ry", "/../about.txt", "/d//a.txt", "/URL:http://x.org/", "/1/about.txt",
         "/about.txt/x", "/d/.cache.pygopherd.dir",
         # URL-syntax metacharacters in the request target (authority marker, scheme, unbalanced bracket)
-        "//[", "http://[::1/x"]
+        "//[", "http://[::1/x",
+        # a long name of two-byte characters: the error text that echoes it exceeds every status-line limit counted in
+        # characters before it does counted in bytes (Gemini <META>: 1024 bytes)
+        "/" + "*" * 530]
 SELS_MORE = ["/caf*.txt", "/about.txt~", "/x%0Ay", "/x%0dy", "/a%7Cb", "/d%2fa.txt", "/d/%2e%2e/about.txt", "/umn/f.txt", "/gm/x.txt",
              "/md/new", "/z.zip/top.txt", "/__pycache__", "/wapx",
              # ... the rest of the URL-syntax class: userinfo, fragment, parameters, port-like suffixes, brackets
@@ -52,7 +55,9 @@ ARGS_MORE = ["|/MBOX-MESSAGE/01", "|/MBOX-MESSAGE/99999999999999999999", "|/MAIL
 # about ten representative read-only requests for histories (frame, selector, argument)
 REPS = [("g", "/", ""), ("gp_dir", "/", ""), ("h_get", "/", ""), ("g", "/d", ""), ("gp_dir", "/d", ""),
         ("g", "/d/.cache.pygopherd.dir", ""), ("g", "/p.pyg", ""), ("g", "/d//", ""), ("g", "/d/.", ""), ("g", "/z.zip", ""),
-        # (quick = the first 10; trailing-slash spellings of directory selectors are both earlier and later requests)
+        # the script gateway with and without a search string (what one request hands a script must not reach the next one)
+        ("g_q", "/run.sh", ""), ("g", "/run.sh", ""),
+        # (quick = the first 12; trailing-slash spellings of directory selectors are both earlier and later requests)
         # and so are "/d/." and "/." (refused like "./" since fix 860656c; they used to poison the cache like "/d//")
         ("g", "/d/", ""), ("g", "/d///", ""), ("g", "//", ""), ("g", "/.", ""), ("gem", "/", ""),
         ("g", "/about.txt", ""), ("h_get", "/d", ""), ("gp_info", "/d/empty.txt", ""), ("g", "/nofile", "")]
@@ -60,12 +65,12 @@ REPS = [("g", "/", ""), ("gp_dir", "/", ""), ("h_get", "/", ""), ("g", "/d", "")
 
 TIERS = {
     "quick": dict(frames=FR_QUICK, sels=SELS, arg_frames=ARG_FRAMES, arg_sels=ARG_SELS, args=ARGS,
-                  hls=["default", "full"], hist=[dict(hl="full", nreps=10, maxhist=2)]),
+                  hls=["default", "full"], hist=[dict(hl="full", nreps=12, maxhist=2)]),
     "thorough": dict(frames=FR_QUICK + FR_MORE, sels=SELS + SELS_MORE, arg_frames=ARG_FRAMES + ARG_FRAMES_MORE,
                      arg_sels=ARG_SELS, args=ARGS + ARGS_MORE, hls=["default", "full"],
-                     hist=[dict(hl="full", nreps=19, maxhist=2), dict(hl="default", nreps=15, maxhist=2),
+                     hist=[dict(hl="full", nreps=21, maxhist=2), dict(hl="default", nreps=17, maxhist=2),
                            dict(hl="full", nreps=8, maxhist=3),
-                           dict(hl="full", nreps=17, maxhist=8, sim=400, depth=150)]),
+                           dict(hl="full", nreps=19, maxhist=8, sim=400, depth=150)]),
 }
 OPS_A, OPS_B = 60, 25            # Bounded: environment operations <= OPS_A + OPS_B * (nodes of the tree)
 
@@ -173,7 +178,8 @@ def _init_worker():
     for f, s, a in REPS:
         rq = _req_record(f, s, a, _HL)
         try:
-            L.serve(_W, L.concretise(rq["line"], rq["tail"]), tls=rq["tls"])
+            # (a search string of its own: whatever the warm-up leaves behind in the process differs from what a history leaves)
+            L.serve(_W, L.concretise(rq["line"].replace("\tquery", "\twarmup"), rq["tail"]), tls=rq["tls"])
         except Exception:      # noqa
             pass
     L.remove_artefacts(_W.root, _KEEP)
@@ -229,6 +235,31 @@ def _run_req(rq):
 
 
 def _run_hist(job):
+    """One history in a process of its own (forked from this worker, which has served nothing but the warm-up): what a
+    history leaves behind IN THE PROCESS never reaches the next history's `alone` answer."""
+    import pickle
+    rfd, wfd = os.pipe()
+    pid = os.fork()
+    if pid == 0:
+        rc = 1
+        try:
+            os.close(rfd)
+            data = pickle.dumps(_run_hist_here(job))
+            with os.fdopen(wfd, "wb") as fp:
+                fp.write(data)
+            rc = 0
+        finally:
+            os._exit(rc)
+    os.close(wfd)
+    with os.fdopen(rfd, "rb") as fp:
+        data = fp.read()
+    os.waitpid(pid, 0)
+    if not data:
+        raise core.MachineryError("C03: the process serving history %r died" % (job,))
+    return pickle.loads(data)
+
+
+def _run_hist_here(job):
     from harness import c03_lib as L
     r0, hist = job
     evs, extras = [], []
@@ -486,7 +517,7 @@ def _rep_rq(L, i, hl):
 
 # gamma, first half, mirrored from spec/MC_C03.tla LineOf for the representative requests only (the
 # lines of the request-space cases come from the TLC dump itself)
-_REP_LINES = {"g": "%s\r\n", "gp_dir": "%s\t$\r\n", "gp_plus": "%s\t+\r\n", "gp_info": "%s\t!\r\n", "h_get": "GET %s HTTP/1.0\r\n",
+_REP_LINES = {"g": "%s\r\n", "g_q": "%s\tquery\r\n", "gp_dir": "%s\t$\r\n", "gp_plus": "%s\t+\r\n", "gp_info": "%s\t!\r\n", "h_get": "GET %s HTTP/1.0\r\n",
               "gem": "gemini://localhost%s\r\n"}
 _REP_TLS = {"gem"}
 _REP_TAIL = {"h_get": "blank"}
